@@ -140,6 +140,9 @@ def tables(cfg, crate, rep):
     pairs = common.eku_pairs_interp(Ie)
     want = {"any": "Any", "server_auth": "ServerAuth", "client_auth": "ClientAuth", "code_signing": "CodeSigning", "email_protection": "EmailProtection", "time_stamping": "TimeStamping", "ocsp_signing": "OcspSigning"}
     rep.ob("C17.tables", "%s|%s" % (cfg, fn), pairs == want, "each standard EKU flag maps to the like-named variant", expected=want, found=pairs)
+    # "standard extended key usages (as a set)": non-standard purposes are left out, they never make the import fail
+    rej = sorted({F.show(c)[-160:] + " => " + core(x).r()[:60] for c, x, n, f in Ie.fails})
+    rep.ob("C17.tables", "%s|%s|total" % (cfg, fn), not rej, "the EKU converter has no rejecting path of its own (only the parser's error is propagated): purposes it cannot represent are skipped", found=rej)
     # SAN: every entry through try_from_general
     fn = P + "convert_x509_subject_alternative_name"
     rep.fn(fn)
